@@ -444,8 +444,14 @@ class Harmonic(BaseScoring):
     np.ndarray
       A (1, M) array of scores where the element at (0, j) indicates the score for alternative j.
     """
-    scores_by_voter = 1 / profile.view(np.ndarray)
-    return super().score(scores_by_voter)
+    ranks = profile.view(np.ndarray)
+    m = ranks.shape[1]
+    # Sum by rank rather than by voter, so that the floating point result only depends on
+    # how often an alternative is placed at each rank (and not on the order of the voters).
+    score = np.zeros(m)
+    for r in range(1, m + 1):
+      score += np.sum(ranks == r, axis=0) / r
+    return score
 
   def swf(self, profile: CompleteProfile) -> np.ndarray:
     """
